@@ -42,6 +42,8 @@ func init() {
 			c13BackupOwnersPruned(r)
 			fragmentStatsTruthful(r)
 			configSanitizeFillsOnly(r, "sanitize-fills-only")
+			c13PeriodicPushEverywhere(r)
+			c13ReplicaOwnersDegrade(r)
 		},
 	})
 }
